@@ -166,5 +166,20 @@ CHECKS['C09'] = dict(
     note='trusted: freshness of .copy()/constructor/comprehension results and of attrs converters; the field lists come '
          'from __slots__/annotations/__init__; deeper aliasing through helper methods other than copy_values is covered '
          'only by the bounded tier.')
+CHECKS['C04'] = dict(
+    category='proof',
+    technique='contract-based deductive verification over the reals: pyvc symbolic execution of the real matrix / '
+              'vector code, polynomial obligations discharged by z3 (NRA) with sin^2+cos^2=1 as the only trigonometric '
+              'fact; IEEE-level bounded stand-in for Euler extraction, inverse() and operand dispatch',
+    text='from_angle / from_pitch / from_yaw / from_roll are proved to return orthonormal rows with determinant +1; '
+         'from_angle(p, y, r) is proved equal to from_roll(r) . from_pitch(p) . from_yaw(y) computed with the real '
+         '_mat_mul; (v @ A) @ B = v @ (A @ B) and (A @ B) @ C = A @ (B @ C) are proved for the real _vec_rot / _mat_mul '
+         'on arbitrary matrices; transpose() . M = I for rotations; Vec @ Angle is proved to rotate by '
+         'Matrix.from_angle(angle) without touching the operand. Matrix -> Angle -> Matrix (incl. the gimbal bound 2h), '
+         'inverse() = transpose() and the full operand-type / operator-form table are checked in IEEE arithmetic on all '
+         'multiples of 15 degrees (45 in the quick tier), near-pole pitches and seeded values.',
+    note='trusted: floats as reals ("up to rounding" in the property), sin/cos as functions of radians(angle) with '
+         'sin^2+cos^2=1, rows-orthonormal <=> columns-orthonormal for square matrices, pyvc/z3; _to_angle and inverse() '
+         'are bounded-only; Cython twin unverified.')
 _PENDING = 'not yet built in this session (planned, see DESIGN.md section 3); no check is registered so nothing is claimed'
 NOT_APPLICABLE = {f'C{i:02d}': _PENDING for i in range(1, 21) if f'C{i:02d}' not in CHECKS}
